@@ -4,6 +4,10 @@ import json
 import sys
 
 LEVEL_TEXT = {
+    'C17': ("PARTIAL. Machine-checked: (i) every variable of static or thread storage duration declared by the headers - the list is regenerated from clang's AST on "
+            "every run - is thread_local or immutable; (ii) under the footprint discipline (a call touches only objects of its thread plus such statics) every "
+            "interleaving of any per-thread call sequences gives each thread exactly the result of running alone. That the binary has no other hidden sharing is "
+            "supported by ThreadSanitizer runs of 8-16 threads executing disjoint workloads covering the public API, not proved.", '6/C17'),
     'C20': ("PARTIAL. Machine-checked over a site table regenerated from the current headers (every std::move / std::forward applied to a reference parameter of a "
             "library function reachable from binding.h): no l-value handed in by a caller is turned into an r-value that initialises a library object (the only move "
             "out of a forwarding reference ends in a const-reference constructor parameter), and the library stores decayed copies of callables, constants and "
